@@ -68,10 +68,10 @@ def run_case(cs):
                 ad = hist.asc_dir(root, h)
                 ms = world.manifests(root, h)
                 if ms and rng.random() < 0.7:
-                    junk = rng.choice(["._" + ms[-1], ".DS_Store", "notes.txt", "._ascmhl_chain.xml", "Thumbs.db"])
+                    junk = rng.choice(["._" + ms[-1], ".DS_Store", "notes.txt", "._ascmhl_chain.xml", "Thumbs.db", "ascmhl_chain.xml.tmp", "0099_stale_2020-01-01_000000Z.mhl.tmp"])
                     if not os.path.exists(os.path.join(ad, junk)):
                         with open(os.path.join(ad, junk), "wb") as f:
-                            f.write(b"\x00\x05\x16\x07 junk")
+                            f.write(b"\x00\x05\x16\x07 junk" if not junk.endswith(".tmp") else b"<stale>\n" + b"  <left over by an interrupted run/>\n" * 600)
                         steps.append(f"junk {junk!r} in {h!r}")
                         cs.count("junk_files_in_ascmhl")
         files = sorted(k for k, v in world.read_tree(root).items() if v is not None)
